@@ -286,3 +286,58 @@ func VerifH_DualProofChain() {
 	verifrt.Reach("read accepted")
 	verifrt.Assert(srcAlh == h.alh[k], "accepted past transaction is the honest one")
 }
+
+// VerifH_DualProofComplete: completeness. An honest history of n transactions (payload fields
+// symbolic, real Alh code, real AHtree on in-memory logs as the binary-linking tree, lag 1) is
+// served by the real proof generators (ImmuStore.DualProof / DualProofV2 / LinearProof over a tx
+// reader stub); for every 1 <= s <= t <= n the generated proofs verify against (alh_s, alh_t).
+func VerifH_DualProofComplete() {
+	n, version := verifrt.Param("n"), verifrt.Param("version")
+	aht, err := ahtree.OpenWith(&verifMemApp{}, &verifMemApp{}, &verifMemApp{}, ahtree.DefaultOptions().WithSyncThld(4))
+	verifrt.Assert(err == nil, "tree opens")
+	hdr := make([]*TxHeader, n+1)
+	alh := make([][sha256.Size]byte, n+1)
+	for id := 1; id <= n; id++ {
+		h := &TxHeader{ID: uint64(id), Ts: verifrt.I64("h.Ts"), Version: version, NEntries: int(verifrt.U16("h.NEntries")),
+			Eh: verifrt.Digest("h.Eh"), PrevAlh: alh[id-1], BlTxID: uint64(id - 1)}
+		if id > 1 {
+			r, err := aht.RootAt(uint64(id - 1))
+			verifrt.Assert(err == nil, "root of the tree over earlier transactions")
+			verifrt.Assert(r == verifAHTRoot(alh[1:id]), "tree root equals the reference root")
+			h.BlRoot = r
+		}
+		hdr[id], alh[id] = h, h.Alh()
+		_, _, err := aht.Append(alh[id][:])
+		verifrt.Assert(err == nil, "tree append")
+	}
+	verifrt.Stub("(*embedded/store.ImmuStore).readTx", func(s *ImmuStore, txID uint64, allowPrecommitted bool, skipIntegrityCheck bool, tx *Tx) error {
+		if txID < 1 || txID > uint64(n) {
+			return ErrTxNotFound
+		}
+		tx.header = hdr[txID]
+		return nil
+	})
+	verifrt.Stub("(*embedded/store.ImmuStore).ReadTxHeader", func(s *ImmuStore, txID uint64, allowPrecommitted bool, skipIntegrityCheck bool) (*TxHeader, error) {
+		if txID < 1 || txID > uint64(n) {
+			return nil, ErrTxNotFound
+		}
+		return hdr[txID], nil
+	})
+	verifrt.Stub("(*embedded/store.ImmuStore).fetchAllocTx", func(s *ImmuStore) (*Tx, error) { return &Tx{}, nil })
+	verifrt.Stub("(*embedded/store.ImmuStore).releaseAllocTx", func(s *ImmuStore, tx *Tx) {})
+	st := &ImmuStore{aht: aht}
+	for s := 1; s <= n; s++ {
+		for t := s; t <= n; t++ {
+			p, err := st.DualProof(hdr[s], hdr[t])
+			verifrt.Assert(err == nil, "dual proof generated")
+			verifrt.Assert(VerifyDualProof(p, uint64(s), uint64(t), alh[s], alh[t]), "generated dual proof verifies")
+			p2, err := st.DualProofV2(hdr[s], hdr[t])
+			verifrt.Assert(err == nil, "dual proof v2 generated")
+			verifrt.Assert(VerifyDualProofV2(p2, uint64(s), uint64(t), alh[s], alh[t]) == nil, "generated dual proof v2 verifies")
+			lp, err := st.LinearProof(uint64(s), uint64(t))
+			verifrt.Assert(err == nil, "linear proof generated")
+			verifrt.Assert(VerifyLinearProof(lp, uint64(s), uint64(t), alh[s], alh[t]), "generated linear proof verifies")
+		}
+	}
+	verifrt.Reach("all proofs verified")
+}
